@@ -236,9 +236,10 @@ def run(ctx):
     retried = 0
     for c in cases:
         rs = [impl.get(core.line_id(l)) for l in c["impl"]]
-        if any(r is None or r == "hang" or r.startswith("timeout") or r.startswith("skipped") for r in rs):
+        if any(r is None or r == "hang" or r.startswith("timeout") or r.startswith("skipped") for r in rs) \
+                and retried < (8 if tier == "quick" else 20):
             retried += 1
-            impl.update(C07.run_impl_guarded([c["impl"]], per_line_timeout=75.0, jobs=1, env={"SV_TIMEOUT_MS": "60000"}))
+            impl.update(C07.run_impl_guarded([c["impl"]], per_line_timeout=40.0, jobs=1, env={"SV_TIMEOUT_MS": "30000"}))
     stats = {"evaluations": 0, "agree": 0, "static_dev": 0, "undecided": 0,
              "per_config": {cf: 0 for cf in CONFIGS}, "distinct": set()}
 
@@ -303,7 +304,7 @@ def run(ctx):
         if fs and rep is None:
             # confirmation: run the case again, alone, with long watchdogs; keep what persists
             confirmed_reruns += 1
-            impl.update(C07.run_impl_guarded([c["impl"]], per_line_timeout=75.0, jobs=1, env={"SV_TIMEOUT_MS": "60000"}))
+            impl.update(C07.run_impl_guarded([c["impl"]], per_line_timeout=40.0, jobs=1, env={"SV_TIMEOUT_MS": "30000"}))
             fs = judge_case(c, False)
         for f in fs:
             if rep is not None:
